@@ -451,3 +451,102 @@ def transport_order(w):
                     return {"cases": cases, "reproduced": True, "detail": "; ".join(probs[:3]),
                             "failures": [{"detail": p, "reproduced": True, "witness": {"replay_kind": "transport.order"}} for p in probs[:3]]}
     return {"cases": cases, "reproduced": False, "detail": "every stream is the concatenation of the routed messages in routing order", "failures": []}
+
+
+# ---------------------------------------------------------------------------------------------------
+# promptness at the call sites (C02 / C08 / C15): what has arrived completely is delivered before the connection waits again
+# ---------------------------------------------------------------------------------------------------
+class FeedReader:
+    """read() blocks until the scenario feeds a chunk; read(n) returns at most n bytes like a StreamReader"""
+
+    def __init__(self, text=False):
+        self.q, self.text, self.waiting = asyncio.Queue(), text, 0
+        self.pending = b""
+
+    async def read(self, n=-1):
+        if not self.pending:
+            self.waiting += 1
+            self.pending = await self.q.get()
+            self.waiting -= 1
+        if self.pending is None:
+            return "" if self.text else b""
+        out, self.pending = (self.pending[:n], self.pending[n:]) if n and n > 0 else (self.pending, b"")
+        return out.decode("latin1") if self.text else out
+
+    async def readline(self):
+        return await self.read(-1)
+
+
+def _prompt_case(which, sizes, chunk):
+    from indi.routing import Router, Device
+
+    async def main(loop):
+        got = []
+        probs = []
+        msgs = [('<setTextVector device="CAM" name="CFG" state="Ok"><oneText name="A">%s</oneText></setTextVector>' % ("x" * n)).encode() for n in sizes]
+        if which == "client":
+            from indi.transport.client import tcp as ctcp
+            rd = FeedReader()
+            h = ctcp.ConnectionHandler(rd, GatedWriter(), got.append, for_blobs=True)
+        else:
+            class Cam(Device):
+                def accepts(self, device):
+                    return True
+
+                def message_from_client(self, message):
+                    got.append(message)
+            r = Router()
+            r.register_device(Cam())
+            msgs = [m.replace(b"setTextVector", b"newTextVector").replace(b' state="Ok"', b"") for m in msgs]
+            if which == "tcp":
+                from indi.transport.server import tcp
+                rd = FeedReader()
+                h = tcp.ConnectionHandler(rd, GatedWriter(), r)
+            else:
+                from indi.transport.server import tty
+                rd = FeedReader(text=True)
+                h = tty.ConnectionHandler(r, rd, GatedWriter(text=True))
+            h.buffer.max_buffer_size_before_frontal_cleanup = None
+        t = loop.create_task(h.wait_for_messages())
+        stream = b"".join(msgs)
+        ends, pos = [], 0
+        for m in msgs:
+            pos += len(m)
+            ends.append(pos)
+        fed = 0
+        while fed < len(stream):
+            piece = stream[fed:fed + chunk]
+            fed += len(piece)
+            rd.q.put_nowait(piece)
+            for _ in range(50):
+                await asyncio.sleep(0)
+                if rd.waiting and not rd.pending:
+                    break
+            want = sum(1 for e in ends if e <= fed)
+            if len(got) != want:
+                probs.append("%s connection, messages of %s bytes fed in pieces of %d: after %d bytes %d complete message(s) had arrived but %d were delivered when the connection waited for more data"
+                             % (which, [len(m) for m in msgs], chunk, fed, want, len(got)))
+                break
+        t.cancel()
+        return probs
+    return run_virtual(main)
+
+
+@kind("transport.prompt")
+def transport_prompt(w):
+    """bounded: three receive loops x message lengths around the 1024-byte read size x feeding granularity {exact multiples of 1024, 1024, 512, 97}"""
+    probs, cases = [], 0
+    base = len('<setTextVector device="CAM" name="CFG" state="Ok"><oneText name="A"></oneText></setTextVector>')
+    for which in ("client", "tcp", "tty"):
+        adj = 0 if which == "client" else len(b"newTextVector") * 2 - len(b"setTextVector") * 2 - len(b' state="Ok"')
+        for total in (1024, 2048, 3072, 1023, 1025, 500):
+            for chunk in (1024, 2048, 4096, 512, 97):
+                cases += 1
+                probs += _prompt_case(which, [total - base - adj], chunk)
+                cases += 1
+                probs += _prompt_case(which, [total - base - adj, 10, total - base - adj], chunk)
+                if len(probs) >= 3:
+                    return {"cases": cases, "reproduced": True, "detail": "; ".join(probs[:3]),
+                            "failures": [{"detail": p, "reproduced": True, "witness": {"replay_kind": "transport.prompt"}} for p in probs[:3]]}
+    return {"cases": cases, "reproduced": bool(probs), "detail": "; ".join(probs[:3]) or "every complete message was delivered before the connection waited again",
+            "failures": [{"detail": p, "reproduced": True, "witness": {"replay_kind": "transport.prompt"}} for p in probs[:3]]}
